@@ -711,3 +711,93 @@ theorem normItems_isInt {shape : List Nat} {items its : List Item}
     exact normAxes_isInt h hlen
 
 end Ndcube
+
+namespace Ndcube
+
+/-- length of a kept axis (0 for a dropped one) -/
+def AxisRes.len : AxisRes → Nat
+  | .kept _ l => l
+  | .dropped _ => 0
+
+theorem resultShape_eq_keptFrom (k : Nat) (pre res : List AxisRes) (hk : pre.length = k) :
+    resultShape res = (keptFrom k res).map fun a => ((pre ++ res).getD a (.dropped 0)).len := by
+  induction res generalizing k pre with
+  | nil => simp [resultShape, keptFrom]
+  | cons r rs ih =>
+    have hstep := ih (k + 1) (pre ++ [r]) (by simp [hk])
+    rw [List.append_assoc, List.singleton_append] at hstep
+    cases r with
+    | kept s l =>
+      simp only [resultShape, keptFrom, AxisRes.isKept, if_true, List.map_cons, hstep]
+      congr 1
+      simp [List.getD, List.getElem?_append_right, ← hk, AxisRes.len]
+    | dropped i =>
+      simp only [resultShape, keptFrom, AxisRes.isKept, Bool.false_eq_true, if_false, hstep]
+
+/-- The result shape lists, for each surviving axis in order, the kept length of its source axis. -/
+theorem resultShape_eq_keptAxes (res : List AxisRes) :
+    resultShape res = (keptAxes res).map fun a => (res.getD a (.dropped 0)).len := by
+  simpa [keptAxes] using resultShape_eq_keptFrom 0 [] res rfl
+
+/-- Number of elements a (possibly un-normalised) item keeps on an axis of length `n`. -/
+def itemLen (n : Nat) : Item → Nat
+  | .slice s e _ => (sliceBounds n s e).2 - (sliceBounds n s e).1
+  | _ => n
+
+/-- After normalisation and application, a slice item at position `a` keeps `itemLen` elements. -/
+theorem applyAxes_len {shape : List Nat} {items nits : List Item} {res : List AxisRes}
+    (hn : normAxes shape items = .ok nits) (hres : applyAxes shape nits = .ok res)
+    (a : Nat) (s e st : Option Int) (ha : items[a]? = some (.slice s e st)) :
+    (res.getD a (.dropped 0)).len = itemLen (shape.getD a 0) (.slice s e st) := by
+  induction shape generalizing items nits res a with
+  | nil =>
+    cases items with
+    | nil => simp at ha
+    | cons it its =>
+      simp only [normAxes] at hn
+      cases hn
+      simp [applyAxes] at hres
+      subst hres
+      have h1 := clampBound_le 0 e 0 (Nat.le_refl _)
+      simp only [List.getD, List.getElem?_nil, Option.getD_none, AxisRes.len, itemLen, sliceBounds]
+      omega
+  | cons n ns ih =>
+    cases items with
+    | nil => simp at ha
+    | cons it its =>
+      simp only [normAxes, bind, Except.bind] at hn
+      split at hn
+      · cases hn
+      · rename_i it' hit'
+        split at hn
+        · cases hn
+        · rename_i rest hrest
+          simp only [pure, Except.pure] at hn
+          cases hn
+          obtain ⟨r, rs, hr, hrs, rfl⟩ := applyAxes_cons hres
+          cases a with
+          | zero =>
+            simp only [List.getElem?_cons_zero, Option.some.injEq] at ha
+            subst ha
+            simp only [normalizeNegative] at hit'
+            cases hit'
+            simp only [applyAxis] at hr
+            cases hr
+            simp [AxisRes.len, itemLen, sliceBounds, clampBound_normBound]
+          | succ b =>
+            simp only [List.getElem?_cons_succ] at ha
+            simpa using ih hrest hrs b ha
+
+end Ndcube
+
+namespace Ndcube
+
+theorem getElem?_eq_some_getD {α} (l : List α) (i : Nat) (d : α) (h : i < l.length) :
+    l[i]? = some (l.getD i d) := by
+  simp [List.getD, List.getElem?_eq_getElem h]
+
+theorem getD_of_getElem? {α} (l : List α) (i : Nat) (d x : α) (h : l[i]? = some x) :
+    l.getD i d = x := by
+  simp [List.getD, h]
+
+end Ndcube
